@@ -281,6 +281,83 @@ func phaseMain(root string) {
 	must(os.WriteFile(filepath.Join(root, "alive.txt"), []byte(strings.Join(alive, "\n")+"\n"), 0644))
 }
 
+// compileAndXML generates the sources and, with a second compiler instance, the XML dump (relative to
+// the working directory, which the caller has set).
+func compileAndXML(cfg *inspector.Config, xmlDir string) error {
+	x := *cfg
+	if err := runCompiler(cfg, false); err != nil {
+		return err
+	}
+	x.XML = xmlDir
+	x.Destination = xmlDir
+	return runCompiler(&x, true)
+}
+
+// phaseTargets generates testobj through the package, directory and single-file targets (C13).
+// `run` distinguishes repeated runs in fresh processes.
+func phaseTargets(root, run string) {
+	base := filepath.Join(root, "targets", run)
+	must(os.MkdirAll(base, 0755))
+	imp := "github.com/koykov/inspector/testobj"
+	errs := map[string]string{}
+	// package target: needs GOPATH for the destination and a working directory that resolves the package
+	gopath := filepath.Join(base, "gopath")
+	must(os.MkdirAll(gopath, 0755))
+	must(os.Setenv("GOPATH", gopath))
+	must(os.Chdir("/repo"))
+	if err := runCompiler(&inspector.Config{Target: inspector.TargetPackage, Package: imp, Destination: "pkgout"}, false); err != nil {
+		errs["package"] = err.Error()
+	}
+	// WriteXML of the package target writes relative to the working directory, which must stay inside a
+	// module that resolves the package: dump into a scratch path below the GOPATH through a relative path
+	rel, rerr := filepath.Rel("/repo", filepath.Join(gopath, "src", "pkgxml"))
+	if rerr != nil {
+		errs["package-xml"] = rerr.Error()
+	} else if err := runCompiler(&inspector.Config{Target: inspector.TargetPackage, Package: imp, Destination: "pkgxml", XML: rel}, true); err != nil {
+		errs["package-xml"] = err.Error()
+	}
+	must(os.Chdir(base))
+	if err := compileAndXML(&inspector.Config{Target: inspector.TargetDirectory, Directory: "/repo/testobj", Destination: filepath.Join(base, "dir"), Import: imp}, "dirxml"); err != nil {
+		errs["directory"] = err.Error()
+	}
+	for i, f := range []string{"/repo/testobj/testobj.go", "/repo/testobj/testobj1.go"} {
+		if err := runCompiler(&inspector.Config{Target: inspector.TargetFile, File: f, Destination: filepath.Join(base, "file"), Import: imp, NoClean: i > 0}, false); err != nil {
+			errs["file"] = err.Error()
+		}
+		if err := runCompiler(&inspector.Config{Target: inspector.TargetFile, File: f, Destination: "filexml", Import: imp, XML: "filexml"}, true); err != nil {
+			errs["file-xml"] = err.Error()
+		}
+	}
+	// the grammar declarations through the directory target as well (file target output exists from phase generate)
+	if _, err := os.Stat(filepath.Join(root, "decl", "decl.go")); err == nil {
+		if err := compileAndXML(&inspector.Config{Target: inspector.TargetDirectory, Directory: filepath.Join(root, "decl"), Destination: filepath.Join(base, "decl_dir"), Import: "gen/decl", Force: true}, "decl_dirxml"); err != nil {
+			errs["decl-directory"] = err.Error()
+		}
+	}
+	// black list and NoClean (C14): a marker file must survive NoClean, black-listed types get no file
+	bl := filepath.Join(base, "blacklist")
+	must(os.MkdirAll(bl, 0755))
+	must(os.WriteFile(filepath.Join(bl, "marker.txt"), []byte("keep"), 0644))
+	if err := runCompiler(&inspector.Config{Target: inspector.TargetDirectory, Directory: "/repo/testobj", Destination: bl, Import: imp, NoClean: true,
+		BlackList: map[string]struct{}{"TestObject1": {}, "TestFlag": {}}}, false); err != nil {
+		errs["blacklist"] = err.Error()
+	}
+	cl := filepath.Join(base, "clean")
+	must(os.MkdirAll(cl, 0755))
+	must(os.WriteFile(filepath.Join(cl, "marker.txt"), []byte("remove"), 0644))
+	if err := runCompiler(&inspector.Config{Target: inspector.TargetDirectory, Directory: "/repo/testobj", Destination: cl, Import: imp}, false); err != nil {
+		errs["clean"] = err.Error()
+	}
+	// an un-forced run over the whole grammar slice: does the generator itself report an error?
+	if _, err := os.Stat(filepath.Join(root, "decl", "decl.go")); err == nil {
+		if err := runCompiler(&inspector.Config{Target: inspector.TargetFile, File: filepath.Join(root, "decl", "decl.go"), Destination: filepath.Join(base, "unforced"), Import: "gen/decl"}, false); err != nil {
+			errs["decl-unforced"] = err.Error()
+		}
+	}
+	b, _ := json.MarshalIndent(errs, "", " ")
+	must(os.WriteFile(filepath.Join(base, "errors.json"), b, 0644))
+}
+
 // phaseFacts extracts from the generated inspector files (committed, regenerated testobj, grammar slice)
 // the facts the Lean side re-checks on every run: their distinct import sets.
 func phaseFacts(root string) {
@@ -339,7 +416,8 @@ func main() {
 	root := flag.String("root", "", "work directory of the generated module")
 	tier := flag.String("tier", "quick", "quick|thorough")
 	seed := flag.Uint64("seed", 1, "VERIF_SEED")
-	phase := flag.String("phase", "generate", "generate|main")
+	phase := flag.String("phase", "generate", "generate|main|targets")
+	runName := flag.String("run", "A", "name of this run (phase targets)")
 	flag.Parse()
 	if *root == "" {
 		must(fmt.Errorf("-root required"))
@@ -350,5 +428,7 @@ func main() {
 	case "main":
 		phaseMain(*root)
 		phaseFacts(*root)
+	case "targets":
+		phaseTargets(*root, *runName)
 	}
 }
